@@ -1035,6 +1035,11 @@ namespace glm {
 		return glm::vec<4, T, Q>(v.x, v.y, v.z, v.y);
 	}
 
+	// xyzz (the vec3 overload is glm::xyzz of <glm/common.hpp>)
+	template<typename T, qualifier Q>
+	GLM_FUNC_QUALIFIER glm::vec<4, T, Q> xyzz(const glm::vec<4, T, Q> &v) {
+		return glm::vec<4, T, Q>(v.x, v.y, v.z, v.z);
+	}
 
 	// xyzw
 	template<typename T, qualifier Q>
